@@ -210,7 +210,7 @@ func (g *gen) expr(t typ, d int) string {
 		case 7:
 			return "(" + g.expr(tInt, d-1) + " << " + fmt.Sprint(g.t.Draw(4)) + ")"
 		default:
-			return "-" + g.expr(tInt, d-1)
+			return "-(" + g.expr(tInt, d-1) + ")"
 		}
 	case tFloat:
 		switch g.t.Draw(4) {
